@@ -98,6 +98,12 @@ CLAIMED = {
         "dask_ml's seeded data-dependent initialisation is not modelled: its row-order dependence is known finding D14 (KNOWN-FINDING line, corpus witness). ISV/JFA sample-order / class-renaming clauses are checked by the search only until the training model (C09) is built.",
         "§6 C16",
     ),
+    "C04": (
+        "Lean 4 theorems: per-block iteration = in-memory iteration for GMM ML / MAP and k-means (from C02_any_partition / additivity), lifted to whole fits incl. criterion and iteration count; determinacy over all linear extensions of a recorded task graph from the decidable discipline check (Bernstein conditions on dependency-unordered pairs); isolated = shared execution for readers + one writer with copy-back; the discipline executed on task graphs recorded from the real library + differential Dask-vs-NumPy runs under random-order and cloudpickle-isolating schedulers",
+        "Proof for every list of row blocks, every dependency-respecting execution order of a graph passing the discipline, and private-copy execution. Tie: a recording Dask scheduler captures each compute graph with observed per-task write sets (field-level hashes); the model's shape / discipline / isolation checks run on them; trained model, criterion and iteration count are compared with the in-memory run for all compositions of small n, uneven chunks, feature-axis chunks and three executors.",
+        "Atomic unit = Dask task (no intra-task interleavings). Copy-back completeness is decided by the isolated differential run. ISV/JFA per-class regrouping is C12's theorem. Found and fixed D11 (D1 was found through C06).",
+        "§6 C04",
+    ),
 }
 
 NOT_YET = "check not built yet in this round (see DESIGN.md §8 order of work); not claimed"
